@@ -94,7 +94,8 @@ class Slice(NullCell):
             return None
         elif tag == 1:
             len_ = self.load_uint(9)
-            return ExternalAddress(self.load_uint(len_), len_)
+            # addr_extern$01 len:(## 9) external_address:(bits len): nothing to read when len = 0
+            return ExternalAddress(self.load_uint(len_) if len_ else 0, len_)
         # todo: addr_var
         is_anycast = False
         if self.load_bool():
